@@ -453,7 +453,7 @@ func inBuilderString(r *Run, fn *ssa.Function, a []Value) Value {
 	if r.opaqueBuilders != nil && r.opaqueBuilders[a[0].(PtrV).Obj] {
 		opaque = true
 	}
-	return StrV{B: bs, Opaque: opaque}
+	return StrV{B: bs, Opaque: opaque, NonEmpty: opaque && len(bs) > 0}
 }
 
 func inBuilderLen(r *Run, fn *ssa.Function, a []Value) Value {
@@ -1008,10 +1008,28 @@ func inErrorf(r *Run, fn *ssa.Function, a []Value) Value {
 			ai++
 		}
 	}
+	// a format with literal text gives a non-empty message
+	nonEmpty := false
+	if ok {
+		for i := 0; i < len(format); i++ {
+			if format[i] != '%' {
+				nonEmpty = true
+				break
+			}
+			i++
+			for i < len(format) && strings.IndexByte("#+- 0123456789.*[]", format[i]) >= 0 {
+				i++
+			}
+			if i < len(format) && format[i] == '%' {
+				nonEmpty = true
+				break
+			}
+		}
+	}
 	fmtPkg := e.prog.ImportedPackage("fmt")
 	if wrapped != nil && fmtPkg != nil {
 		wt := fmtPkg.Type("wrapError").Type()
-		obj := e.newObject(wt, &AggV{E: []Value{StrV{Opaque: true}, wrapped}})
+		obj := e.newObject(wt, &AggV{E: []Value{StrV{Opaque: true, NonEmpty: nonEmpty}, wrapped}})
 		return IfaceV{T: types.NewPointer(wt), V: PtrV{Obj: obj}}
 	}
 	var errPkg *ssa.Package
@@ -1021,7 +1039,7 @@ func inErrorf(r *Run, fn *ssa.Function, a []Value) Value {
 		}
 	}
 	et := errPkg.Type("errorString").Type()
-	obj := e.newObject(et, &AggV{E: []Value{StrV{Opaque: true}}})
+	obj := e.newObject(et, &AggV{E: []Value{StrV{Opaque: true, NonEmpty: nonEmpty}}})
 	return IfaceV{T: types.NewPointer(et), V: PtrV{Obj: obj}}
 }
 
